@@ -28,6 +28,8 @@ pub struct Profile {
     pub insert_many: u32,
     pub churn: u32,
     pub side: u32,
+    /// arm a panic in a callback of the next operation
+    pub inject: u32,
     /// iterator walks: weight of forgetting instead of dropping
     pub forget: u32,
     /// weight of boundary size selectors relative to plain sizes
@@ -47,7 +49,7 @@ impl Profile {
             name,
             insert: 24, try_insert: 6, promote: 10, peek: 6, remove: 8, mutate: 8,
             set_max: 4, retain: 3, clear: 1, capacity: 6, walk: 4, debug: 1,
-            clone: 2, scalars: 1, insert_many: 2, churn: 1, side: 2,
+            clone: 2, scalars: 1, insert_many: 2, churn: 1, side: 2, inject: 1,
             forget: 0, boundary: 5, colliding: 4, max_ops: 60, big: false, small: false,
         }
     }
@@ -176,6 +178,7 @@ pub fn hasher(colliding: u32) -> impl Strategy<Value = HKind> {
         s => Just(HKind::Sip),
         s => Just(HKind::Fx),
         s / 2 + 1 => Just(HKind::Identity),
+        s / 2 + 1 => Just(HKind::Reseed),
         c => Just(HKind::LowBits(1)),
         c => Just(HKind::LowBits(2)),
         c => Just(HKind::LowBits(4)),
@@ -260,6 +263,8 @@ pub fn op(p: &Profile, universe: u16) -> BoxedStrategy<Op> {
         (p.churn, (prop_oneof![4 => 1u16..60, 1 => 60u16..=churn_max], 0u8..3)
             .prop_map(|(rounds, which)| Op::Churn { rounds, which }).boxed()),
         (p.side, (0u8..3).prop_map(Op::Side).boxed()),
+        (p.inject, (proptest::sample::select(PANIC_KINDS.to_vec()), 1u16..7, any::<bool>())
+            .prop_map(|(cb, nth, late)| Op::Inject { cb, nth, late }).boxed()),
     ];
     alts.retain(|(w, _)| *w > 0);
     proptest::strategy::Union::new_weighted(alts).boxed()
@@ -315,6 +320,7 @@ pub fn panic_case() -> BoxedStrategy<PanicCase> {
     p.insert_many = 3;
     p.churn = 0;
     p.side = 0;
+    p.inject = 0;
     p.clone = 1;
     p.walk = 1;
     p.clear = 0;
@@ -326,7 +332,7 @@ pub fn panic_case() -> BoxedStrategy<PanicCase> {
     v.set_max = 6; v.retain = 8; v.capacity = 14; v.clone = 8; v.walk = 0; v.debug = 0;
     v.scalars = 0; v.insert_many = 0; v.churn = 0; v.side = 0; v.clear = 0;
     let mut s = Profile::base("suffix");
-    s.small = true; s.side = 0; s.churn = 1; s.walk = 6; s.capacity = 10;
+    s.small = true; s.side = 0; s.inject = 0; s.churn = 1; s.walk = 6; s.capacity = 10;
     config(&p).prop_flat_map(move |config| {
         let u = config.universe;
         (Just(config), vec(op(&p, u), 0..14), op(&v, u), any::<bool>(), vec(op(&s, u), 0..10))
